@@ -1457,3 +1457,59 @@ package hashgraph
 //@   ghostset G_lastBlock(ret0) := -1
 //@   ghostset G_psetOK(ret0) := false
 //@   ensures[coupled] ret0 != nil && __fresh(ret0) && ret0.coupled()
+
+// The remaining read-only methods against the Store contracts (those contracts say little: no effect on the view,
+// fresh / non-nil results), with panic-freedom under the coupling invariant.
+//@ func (s *InmemStore) LastRound() int
+//@   implements Store.LastRound
+//@   safety on
+//@   requires s != nil
+
+//@ func (s *InmemStore) CacheSize() int
+//@   implements Store.CacheSize
+//@   safety on
+//@   requires s != nil
+
+//@ func (s *InmemStore) FirstRound(id uint32) (int, bool)
+//@   implements Store.FirstRound
+//@   safety on
+//@   requires s != nil && s.coupled()
+
+//@ func (s *InmemStore) LastConsensusEventFrom(participant string) (last string, err error)
+//@   implements Store.LastConsensusEventFrom
+//@   safety on
+//@   requires s != nil
+
+//@ func (s *InmemStore) GetAllPeerSets() (map[int][]*peers.Peer, error)
+//@   implements Store.GetAllPeerSets
+//@   safety on
+//@   requires s != nil && s.coupled()
+
+//@ func (s *InmemStore) KnownEvents() map[uint32]int
+//@   implements Store.KnownEvents
+//@   safety on
+//@   requires s != nil && s.coupled()
+
+//@ func (s *InmemStore) LastEventFrom(participant string) (last string, err error)
+//@   safety on
+//@   requires s != nil && s.coupled()
+//@   modifies nothing
+
+//@ func (c *PeerSetCache) GetAll() (map[int][]*peers.Peer, error)
+//@   safety on
+//@   requires c != nil && c.wf()
+//@   modifies nothing
+//@   ensures[all] ret1 == nil && ret0 != nil && __fresh(ret0) && (forall i int :: 0 <= i && i < len(c.rounds) ==> __in(c.rounds[i], ret0))
+//@   loop 1 invariant[part] res != nil && __fresh(res) && (forall i int :: 0 <= i && i < __idx() ==> __in(c.rounds[i], res))
+
+//@ func (c *PeerSetCache) FirstRound(id uint32) (int, bool)
+//@   safety on
+//@   requires c != nil
+//@   modifies nothing
+//@   ensures[known] ret1 == __in(id, c.firstRounds) && (ret1 ==> ret0 == c.firstRounds[id])
+
+//@ func (pec *ParticipantEventsCache) Known() map[uint32]int
+//@   safety on
+//@   requires pec != nil && pec.wf()
+//@   modifies nothing
+//@   ensures[known] ret0 != nil && __fresh(ret0)
